@@ -482,6 +482,29 @@ def sym_scenarios(impl, rng, spec_group):
                 except Exception:
                     continue
                 yield {'call': builder.calc_starting_mass, 'args': (), 'kwargs': {}, 'self': builder, 'cleanup': lambda b=builder: delattr(b, 'ctx')}
+    elif file == 'emissions/ei/hcco.py':
+        # one evaluation point per call (the kernel reads the array code for one element); calibration sets that reach every
+        # branch of the clamping rules: ordinary falling HC/CO, equal idle / approach flows (zero slope), rising EI (positive
+        # slope), an intercept beyond the climb-out flow, an intercept below the approach flow
+        for i in range(160):
+            cal = _cal(rng)
+            kind = i % 8
+            ei = list(10 ** rng.uniform(-1.0, 2.0, 4))
+            if kind == 0:
+                ei = sorted(ei, reverse=True)
+            elif kind == 1:
+                cal[1] = cal[0]                          # zero slope_den
+            elif kind == 2:
+                ei = sorted(ei)                          # rising: rule (c)
+            elif kind == 3:
+                ei = [ei[0], ei[0] * 0.99, ei[0] * 1e-4, ei[0] * 1e-4]   # shallow slanted line, far intercept: rule (a)
+            elif kind == 4:
+                ei = [ei[0], ei[0] * 1e-3, ei[0] * 0.5, ei[0] * 0.5]     # steep line meeting a high level early: rule (b)
+            elif kind == 5:
+                ei = [ei[0], ei[0], ei[2], ei[3]]        # equal idle / approach EI: zero slope
+            ff = float(rng.choice([rng.uniform(0.0, 1.3 * cal[3]), 0.0, -0.05, cal[0] * 0.5, cal[0], cal[1], cal[2], cal[3]]))
+            _, T, P = _amb(impl, rng, 1)
+            yield {'call': impl.hcco.EI_HCCO, 'args': (np.array([ff]), impl.tmv(ei), impl.tmv(cal), T, P), 'kwargs': {}}
     elif file == 'weather.py':
         import tempfile
 
@@ -545,6 +568,7 @@ def check_sym(ctx, files: set[str] | None = None) -> dict:
                 _run_sym(ctx, g, ks, sc, sm, seen)
         except Exception as e:  # the real API changed under the scenario generator
             ctx.diverge('kernel scenario', {'group': list(grp[:2])}, f'{type(e).__name__}: {e}')
+        _flush_sym(ctx, sm, seen)
     sm['kernels'] = len(seen)
     ctx.count('sym_kernel_points', sm['points'])
     return sm
@@ -610,7 +634,19 @@ def _run_sym(ctx, g, ks, sc, sm, seen):
                 continue
             ctx.diverge(f'kernel {k.name}', {'kernel': k.name}, f'inputs not observable: {type(e).__name__}: {e}')
             continue
-        got = ctx.driver.outs([{'op': 'kern.eval', 'name': k.name, 'attrs': attrs, 'pts': [{'x': xs, 'b': bs}]}])[0]
+        _SYM_QUEUE.append((k, {'op': 'kern.eval', 'name': k.name, 'attrs': attrs, 'pts': [{'x': xs, 'b': bs}]}, want, attrs, xs, bs))
+    if 'cleanup' in sc:
+        sc['cleanup']()
+
+
+_SYM_QUEUE: list = []
+
+
+def _flush_sym(ctx, sm, seen):
+    if not _SYM_QUEUE:
+        return
+    outs = ctx.driver.outs([q[1] for q in _SYM_QUEUE])
+    for (k, _op, want, attrs, xs, bs), got in zip(_SYM_QUEUE, outs):
         have = u2f(got[0])
         seen.add(k.name)
         sm['points'] += 1
@@ -621,8 +657,7 @@ def _run_sym(ctx, g, ks, sc, sm, seen):
                 ctx.diverge(f'kernel {k.name} (symbolic translation of {k.file}:{k.func}, {k.target}) vs implementation',
                             {'kernel': k.name, 'attrs': {kk: u2f(v) for kk, v in attrs.items()}, 'x': [u2f(x) for x in xs], 'b': bs},
                             f'implementation {want!r} vs translated kernel {have!r}')
-    if 'cleanup' in sc:
-        sc['cleanup']()
+    _SYM_QUEUE.clear()
 
 
 def _observable(ns, key) -> bool:
